@@ -97,6 +97,7 @@ func applyDefaults() {
 	withScale(Props["C02"], 512, 7)
 	withScale(Props["C05"], 512, 2)
 	withScale(Props["C08"], 512, 11)
+	withScale(Props["C14"], 512, 13)
 	withScale(Props["C03"], 1024, 3)
 	withScale(Props["C04"], 1024, 5)
 	for _, id := range []string{"C01", "C11", "C15"} {
